@@ -66,7 +66,7 @@ RULE = ('cases = (main flow over block/unblock(false)/unblock(true)/shutdown wit
         'construct / destroy / copy operations before and between the arrivals, a third of it about the alarm: SIGALRM environment-ignored x '
         'setAlarm in the flow / time limit x first / second run x raise(SIGALRM) later, re-arming answers) and random long schedules '
         '(thorough: DIRECT <= 5 ops / 3 arrivals, <= 3 ops / 4 arrivals, 3 numbers; OS-LEVEL <= 4 ops / 3 arrivals, <= 3 ops / 4 arrivals, '
-        '3 numbers); OS-LEVEL callbacks that call blockSignals() themselves and leave the release to the main flow (answer 4: oracle only, not compared with the model) - all flows of <= 3 operations well nested from depth 1 with <= 2 further arrivals, plus random; non-trivial = at least one arrival; distinct = distinct case tuples')
+        '3 numbers); OS-LEVEL callbacks that call blockSignals() themselves and leave the release to the main flow (answer 4: part of the Coq model - Model.cb_block / Disp.cstep - and compared with it like every other case) - all flows of <= 3 operations well nested from depth 1 with <= 2 further arrivals, plus random; non-trivial = at least one arrival; distinct = distinct case tuples')
 TRUSTED_BASE = ['__sync_fetch_and_add/sub/and are atomic with respect to signal handlers (one atomic step each)',
                 'signal handlers nest LIFO on the delivering thread; a synchronous call of processSignal at a yield point is what an '
                 'interrupting handler does there (verif hook d9db889: POTASSCO_VERIF_YIELD between the atomic steps)',
@@ -84,12 +84,24 @@ TRUSTED_BASE = ['__sync_fetch_and_add/sub/and are atomic with respect to signal 
                 'the process at any time); the seed scenario "second thread takes the alarm while the first is in its handler" is the '
                 'one-thread, no-mask reading here: the second alarm re-enters sigHandler on the same thread',
                 'props/C18.py oracle (ghost accounting and handler-in-progress tracking re-done on the implementation trace) and its '
-                'schedule enumerator']
-ASSUMPTIONS = ['main flow well nested (never more unblockSignals than blockSignals/shutdown in a prefix)',
-               'MODEL: onSignal itself does not change the nesting count (its answer is data; it may re-arm the alarm; a balanced block/unblock pair '
-               'inside the callback - answer 5 - is invisible to the model); a callback that calls blockSignals() and leaves the block to the main '
-               'flow (answer 4) is exercised on the implementation and judged by the python oracle only: the Coq model and its theorems do not '
-               'cover it and the model/implementation comparison is skipped for OS-level cases whose answer list contains a 4 (obs_equal)',
+                'schedule enumerator',
+                'callback-taken blocks: the harness callback of answer 4 calls blockSignals() right after it has been entered (before the yield '
+                'point inside the callback); the model executes cb_block in the same step that enters the callback (Disp.cstep), so both print '
+                'blocked_ = 2 at the scheduling point inside the callback; a callback that blocks later, or several times, is covered by the '
+                'theorems (reach_cbb) but not exercised by the harness']
+ASSUMPTIONS = ['main flow well nested relative to the blocks the application HOLDS (its own and those a callback took and left to it): never an '
+               'unblockSignals without a block held.  In the theorems: the initial plan of the main flow is well nested from 0 (bal 0 o) and the flow '
+               'may re-plan at any operation boundary with a continuation that is well nested from the blocks held then (Proofs.reach_ops / '
+               'ProofsDisp.oreach_flow) - this is how a main flow that releases a callback-taken block is covered',
+               'MODEL: the callback onSignal may call blockSignals() itself, any number of times, in any callback, and leave the release to the main '
+               'flow (Model.cb_block, a transition of Proofs.reach; OS-level answer 4 = one such call right after the callback is entered, executed '
+               'by Disp.cstep and compared with the implementation like every other case - obs_equal is plain equality); its answer is data; it may '
+               're-arm the alarm; a balanced block/unblock pair inside the callback - answer 5 - is invisible to the model; a callback that calls '
+               'unblockSignals() without a matching block of its own is outside the model',
+               'NOT machine-checked for the answer-4 traces: that the states of a harness trace whose fixed flow is well nested only from depth 1 '
+               '(the flow releases the callback-taken block) are states of a reach / oreach history - they are, with the plan field [ops] holding '
+               'the part of the flow that is well nested so far (reach_ops re-plans; [ops] is ghost: no step of an activation reads it), but '
+               'c18_run_reachable / c18_os_run_reachable are stated for flows well nested from 0 only',
                'the Windows alarm thread (a second thread calling processSignal) is outside the model',
                'when arrivals interrupt one another between the test and the write of pending_, the later write wins '
                '(the property text allows "the first" only for non-interrupting arrivals); after a callback answered stop '
@@ -949,14 +961,9 @@ def callback_block_random(rnd, count):
 
 
 def obs_equal(case, impl, model):
-    """the Coq model has no callbacks that call blockSignals() themselves (answer code 4 is 'continue' there): for OS-level cases
-    with such an answer only the oracle judges the implementation (notes/C18.md, EXHAUSTIVE_SPACE)"""
-    if impl == model:
-        return True
-    if is_os(case):
-        t = decode_os(case)
-        return t is not None and 4 in t[3]
-    return False
+    """plain equality: callbacks that call blockSignals() themselves (answer code 4) are part of the Coq model since the restriction of
+    C18-r15 was lifted (Model.cb_block / Disp.cstep), so NO case is exempt from the model/implementation comparison any more"""
+    return impl == model
 
 
 def with_alarm(rnd, f):
@@ -1278,10 +1285,16 @@ def mutate(case, rnd):
 LEVEL_TEXT = ('Machine-checked invariant proofs (Coq) over a small-step transition system whose transitions are the individual atomic '
               'steps of Application::processSignal / blockSignals / unblockSignals (fetch_and_inc, test, read/write of pending_, callback '
               'entry/exit, fetch_and_dec, fetch_and_clear) with a stack of nested handler activations: for every well nested main flow, '
-              'every callback answer list and every schedule of arrivals - no callback while the application holds a block or another '
-              'callback runs; an arrival that finds blocked_=0 is delivered in its own activation; one slot; every arrival is in exactly '
+              'every callback answer list, every schedule of arrivals AND every callback that calls blockSignals() itself (any number of times, '
+              'left to the main flow to release: Model.cb_block is a transition of the reachability relation, and the main flow may re-plan at '
+              'an operation boundary with anything well nested relative to the blocks held then) - no callback is entered while the application '
+              'holds a block (its own or one a callback took) or another callback runs; after an activation whose callback took k blocks '
+              'blocked_ = entry value + k, the application holds exactly k blocks and no callback is entered until they are released '
+              '(c18_callback_taken_blocks, c18_no_entry_while_holding); an arrival that finds blocked_=0 is delivered in its own activation; one slot; every arrival is in exactly '
               'one place (token conservation: never lost, never twice; the remembered one goes to the nested processSignal or is dropped at '
-              'the take of the next outermost release); the nesting count is restored. Layered around it (coq/C18/Disp.v) the OS-level '
+              'the take of the next outermost release); the nesting count is restored up to the blocks the callback itself took (c18_nesting_restored / '
+              'c18_nesting_general / c18_callback_continue_restores carry that term; a deferred delivery can be re-queued or discarded only after a stop '
+              'answer or a callback-taken block: 0 < stops + cbt). Layered around it (coq/C18/Disp.v) the OS-level '
               'entry point: dispositions as Application::sigHandler (signal(sig,SIG_IGN) ... signal(sig,sigHandler) in every return path) '
               'and the installation loop of Application::main (ignored stays ignored, nothing restored, any number of runs) manipulate them; '
               'proved for every schedule of OS-level arrivals and steps, including interruptions of sigHandler itself: the ignored registered '
@@ -1325,6 +1338,6 @@ EXHAUSTIVE_SPACE = ('quick: every schedule (arrival decisions at every yield poi
                     'OS-LEVEL flows that end with an exception (ops over {block, unblock(true)} then "run() throws" = shutdown(true) with an error report that returns; arrivals before the increment, inside the report, after it): '
                     'quick <= 3 ops (incl. the throw) / <= 3 arrivals, <= 4/2, <= 2/2 inside a second main(), <= 2/2 of {SIGALRM, 1} with --time-limit (SIGALRM environment-ignored or not); thorough <= 4/3, <= 3/4, <= 3/3 of 3 numbers, <= 3/3 second main(), <= 3/3 alarm, <= 3/2 with number 1 environment-ignored. NOT enumerated: interruptions of sigHandler between its entry and '
                     'signal(sig,SIG_IGN) / between the return of processSignal and signal(sig,sigHandler) (no yield point there). '
-                    'Callbacks that take a block themselves (answer 4; oracle only, NOT compared with the model, NOT covered by the theorems): quick = signal 1 or 2 arrives before the first operation, its '
+                    'Callbacks that take a block themselves (answer 4; in the Coq model since the C18-r15 restriction was lifted, compared with the implementation, covered by the theorems through reach_cbb / reach_ops): quick = signal 1 or 2 arrives before the first operation, its '
                     'callback blocks, every flow of <= 3 operations that is well nested from depth 1, <= 2 further arrivals of {1,2} with answers continue / balanced pair; thorough <= 4 ops / <= 3 arrivals; plus random. '
                     'The unbounded claim is carried by the theorems, not by this enumeration.')
